@@ -20,6 +20,77 @@ NODE_PY = os.path.join(VERIF, "sim", "node.py")
 LOCALE_CHOICES = [None, "C", "C.utf8", "POSIX", "xx_YY.UTF-8", "C.UTF-8"]
 
 
+_CWD_CANDIDATES = None
+_FILE_RE = None
+
+
+def scan_cwd_candidates():
+    """Fault dimension 'contents of the working directory': file names that the package's own source mentions
+    (string literals that look like a config / data file name) are candidates to be planted in a node's cwd, filled with
+    every identifier-like literal of the same module as section and key. On a tree that never mentions a file name
+    (the pinned one) nothing is planted. Pure function of the working tree."""
+    global _CWD_CANDIDATES, _FILE_RE
+    if _CWD_CANDIDATES is not None:
+        return _CWD_CANDIDATES
+    import ast
+    import re
+
+    _FILE_RE = re.compile(r"^(\.[A-Za-z][\w.-]{1,30}|[\w-][\w.-]{0,40}\.(ini|cfg|toml|json|ya?ml|conf|txt|env|properties|salt|pyab|rc))$")
+    ident = re.compile(r"^[A-Za-z_][\w-]{0,30}$")
+    out = {}
+    root = os.path.join(repo_src(), "pyab_experiment")
+    for dp, dn, fns in sorted(os.walk(root)):
+        dn.sort()
+        for fn in sorted(fns):
+            if not fn.endswith(".py"):
+                continue
+            try:
+                with open(os.path.join(dp, fn), encoding="utf-8") as fp:
+                    tree = ast.parse(fp.read())
+            except (SyntaxError, OSError, UnicodeDecodeError):
+                continue
+            strs = [n.value for n in ast.walk(tree) if isinstance(n, ast.Constant) and isinstance(n.value, str)]
+            names = sorted({x for x in strs if _FILE_RE.match(x)})
+            if not names:
+                continue
+            idents = sorted({x for x in strs if ident.match(x) and not _FILE_RE.match(x)})[:40]
+            for nm in names:
+                out.setdefault(nm, [])
+                out[nm] = sorted(set(out[nm]) | set(idents))[:40]
+    _CWD_CANDIDATES = out
+    return out
+
+
+def cwd_file_content(name, idents, value):
+    ext = name.rsplit(".", 1)[-1].lower() if "." in name else ""
+    if ext == "json":
+        import json as _json
+
+        d = {k: value for k in idents}
+        for sct in idents:
+            d[sct] = {k: value for k in idents}
+        return _json.dumps(d)
+    if ext in ("yaml", "yml"):
+        lines = []
+        for sct in idents:
+            lines.append(f"{sct}:")
+            lines += [f"  {k}: {value}" for k in idents]
+        return "\n".join(lines) + "\n"
+    if ext == "toml":
+        lines = [f'{k} = "{value}"' for k in idents]
+        for sct in idents:
+            lines.append(f"[{sct}]")
+            lines += [f'{k} = "{value}"' for k in idents]
+        return "\n".join(lines) + "\n"
+    lines = []
+    if ext in ("env", "properties", "txt", "salt", "rc", ""):
+        lines += [f"{k}={value}" for k in idents] or [value]
+    for sct in idents:
+        lines.append(f"[{sct}]")
+        lines += [f"{k} = {value}" for k in idents]
+    return "\n".join(lines) + "\n"
+
+
 def gen_env(rng):
     """Process environment of one node incarnation; explicit values only (never 'random')."""
     e = {"hashseed": 0 if rng.random() < 0.1 else rng.randrange(1, 2 ** 32 - 1)}
@@ -29,6 +100,10 @@ def gen_env(rng):
     e["cwd"] = rng.choice(["root", "tmp", "deleted"])
     # what a real process would draw from the OS at start-up (urandom, pid, start time): owned by the simulator too
     e["entropy"] = rng.randrange(1, 2 ** 32)
+    cands = scan_cwd_candidates()
+    if cands and e["cwd"] == "tmp" and rng.random() < 0.6:
+        value = "cwd" + str(rng.randrange(1000))
+        e["cwd_files"] = {nm: cwd_file_content(nm, cands[nm], value) for nm in sorted(cands) if rng.random() < 0.7}
     return e
 
 
@@ -68,6 +143,11 @@ class Node:
                     k += 1
                     self.tmp = f"{base}-{k}"
             cwd = self.tmp
+            for nm, content in sorted((env_spec.get("cwd_files") or {}).items()):
+                if "/" in nm or nm in (".", ".."):
+                    continue
+                with open(os.path.join(self.tmp, nm), "w", encoding="utf-8") as fp:
+                    fp.write(content)
             if env_spec["cwd"] == "deleted":
                 env["VERIF_NODE_RMCWD"] = "1"
         self.proc = subprocess.Popen([PY, NODE_PY], env=env, cwd=cwd, pass_fds=(r_child, w_child),
